@@ -31,9 +31,11 @@ Theorem C17_ratio_formula : forall meth name_ l base parent level,
   me_ratio (listing meth name_ l base parent level) = Some (get_ratio (zlen l) (zlen base) 4).
 Proof. exact listing_ratio. Qed.
 Print Assumptions C17_ratio_formula.
-Theorem C17_ratio_range : forall m r e z, wf (root m) = true -> ctcs_closed m ->
+(* for every well-formed model, whatever its constraints mention (attributes, literals): "Features in constraints"
+   keeps only names of features.  Before the repair of fm_metrics this statement was false (ratio 2.0). *)
+Theorem C17_ratio_range : forall m r e z, wf (root m) = true ->
   report m None = Ok r -> In e r -> me_ratio e = Some z -> (0 <= z <= 10000)%Z.
-Proof. exact report_ratios_in_range. Qed.
+Proof. exact report_ratios_in_range_full. Qed.
 Print Assumptions C17_ratio_range.
 
 (* the defining identities *)
